@@ -79,8 +79,12 @@ def winding(p, vs):
     n = len(vs)
     for i in range(n):
         a, b = vs[i], vs[(i + 1) % n]
-        num = dot(p, cross(a, b))
-        den = dot(a, b) - dot(a, p) * dot(b, p)
+        # written with the differences to p (same value as p.(a x b) and a.b - (a.p)(b.p), without the cancellation that
+        # loses all digits when the ring is a few metres away from p)
+        u = (a[0] - p[0], a[1] - p[1], a[2] - p[2])
+        v = (b[0] - p[0], b[1] - p[1], b[2] - p[2])
+        num = dot(p, cross(u, v))
+        den = dot(u, v) - dot(u, p) * dot(v, p)
         s += math.atan2(num, den)
     return s
 
@@ -255,6 +259,52 @@ def gen_long(ctx):
     return out
 
 
+HIRES_CRS = {
+    "utm60n": ("EPSG:32660", 1), "utm01n": ("EPSG:32601", 1), "utm10n": ("EPSG:32610", 1), "utm47n": ("EPSG:32647", 1),
+    "utm60s": ("EPSG:32760", -1), "utm18s": ("EPSG:32718", -1),
+    "stere_n": (CRS["stere_n"], 0), "stere_s": (CRS["stere_s"], 0),
+}
+
+
+def gen_hires(ctx):
+    """high-resolution geometries (10-100 m pixels) far from lon 0 / lat 0, where np.allclose-style comparisons of
+    coordinates in radians cannot tell neighbouring pixels apart"""
+    r = ctx.rng
+    out = []
+    for _ in range(ctx.n(28, 250)):
+        name = r.choice(sorted(HIRES_CRS))
+        proj, hemi = HIRES_CRS[name]
+        px = r.choice([10.0, 20.0, 30.0, 50.0, 60.0, 100.0, r.uniform(10.0, 100.0)])
+        h, w = r.randint(6, 40), r.randint(6, 40)
+        if hemi:       # UTM: central meridian at |lon| > 90; northing of latitude 46..80
+            x0 = r.uniform(3.0e5, 7.0e5)
+            lat = r.uniform(46.0, 80.0)
+            y0 = lat * 111000.0 if hemi > 0 else 1.0e7 - lat * 111000.0
+        else:          # polar stereographic, lon_0 = 0: the half plane away from the Greenwich meridian
+            x0 = r.uniform(-3.0e6, 3.0e6)
+            y0 = r.uniform(4.0e5, 3.0e6) * (1 if name == "stere_n" else -1)
+        ext = [x0, y0, x0 + w * px, y0 + h * px]
+        fk = r.choice([0, 0, 1, 2, 3])
+        if fk & 1:
+            ext[1], ext[3] = ext[3], ext[1]
+        if fk & 2:
+            ext[0], ext[2] = ext[2], ext[0]
+        v = r.choice([None, None, None, max(h, w) + 1, r.randint(2, 12)])
+        out.append({"kind": "area", "tag": "hires_area_%s_%dm%s" % (name, round(px), "_flip%d" % fk if fk else ""), "key": "high_resolution",
+                    "proj": proj, "shape": [h, w], "extent": ext, "vps": v, "want_lonlats": True, "true_cw": None})
+    for _ in range(ctx.n(28, 250)):
+        k = r.randrange(8)
+        d = r.choice([1e-4, 2e-4, 3e-4, 5e-4, 1e-3])        # degrees: 11 m .. 111 m of latitude
+        h0, w0 = r.randint(5, 30), r.randint(5, 30)
+        lon0 = r.uniform(92.0, 179.9) * r.choice([1, -1])
+        lat0 = r.uniform(46.0, 84.0) * r.choice([1, -1])
+        lons, lats = encoded_swath(h0, w0, k, lon0, lat0, d)
+        v = r.choice([None, None, None, max(h0, w0) + 2, r.randint(2, 10)])
+        out.append({"kind": "swath", "tag": "hires_swath_%gdeg" % d, "key": "high_resolution", "k": k, "lons": lons, "lats": lats, "vps": v,
+                    "dask": False, "xarray": False, "true_cw": bin(k).count("1") % 2 == 0})
+    return out
+
+
 def gen_cases(ctx):
     r = ctx.rng
     c = {}
@@ -324,6 +374,7 @@ def gen_cases(ctx):
         rings.append({"kind": "area", "tag": "area_" + name + ("_flip%d" % fk if fk else ""), "proj": CRS[name],
                       "shape": [h, w], "extent": ext, "vps": v, "want_lonlats": True, "true_cw": None})
     rings += gen_long(ctx)
+    rings += gen_hires(ctx)
     for g in rings:
         g["want_legacy"] = r.random() < (0.3 if g.get("key") == "long_side" else ctx.n(0.35, 1.0))
         if g["vps"] is None and r.random() < 0.7:
@@ -503,6 +554,7 @@ def run(ctx):
     # ================================================================= rings
     L = []
     L_full, L_dec = [], []
+    shown = {}      # one evidence sample per ring class
     nring = len(cases["rings"])
     for g, o in zip(cases["rings"], obs["rings"][:nring]):
         v = g["vps"]
@@ -550,7 +602,8 @@ def run(ctx):
                                              "extent": g.get("extent")},
                          "impl_forced_sides": sf if sum(len(x) for x in sf) <= 40 else {"lengths": [len(x) for x in sf], "first": [x[:3] for x in sf]},
                          "corner_is_clockwise": cw, "reversed": reversed_, "SphPolygon_area": o.get("area")}
-                 if (v is not None or kindkey != "enc") and not (kindkey == "enc" and min(h, w) < 3) else None)
+                 if (v is not None or kindkey != "enc") and not (kindkey == "enc" and min(h, w) < 3)
+                 and shown.setdefault(kindkey, 0) < 1 and not shown.update({kindkey: 1}) else None)
         what = "%dx%d %s%s, vertices_per_side=%s" % (h, w, g["tag"], "" if g.get("k") is None else " orientation %d" % g["k"], v)
         # ---- the property, clause by clause, on the forced ring and on boundary().contour
         allv = [p for s in sf for p in s] + cf + [p for s in su for p in s] + cu + ed
@@ -633,6 +686,16 @@ def run(ctx):
         a_ref = abs(cells)
         # discretisation allowance: the slivers between each chord and the edge pixels it skips
         tol = 1e-9 + 1e-6 * a_ref
+        slack_impl = 1e-7 * max(1.0, a_ref)
+        if kindkey == "high_resolution":
+            # footprints of 1e-10 .. 1e-6 sr: SphPolygon.area is a sum of n vertex angles minus (n-2) pi, each rounded at
+            # about 1e-16 relative to pi; the oracle's fan sums are far more accurate
+            tol = 1e-6 * a_ref + 5e-14 * (len(ring) + 10)
+            # SphPolygon.area forms each vertex angle from arctan2(y, x) with x = sin(pa)cos(pp) - cos(pa)sin(pp)cos(dl), a difference
+            # of two numbers of size <= 1 that leaves about the vertex spacing d (radians): absolute error ~2 eps, relative ~2 eps/d,
+            # i.e. up to ~2 eps/d per azimuth, two azimuths per vertex: n * 4 eps / d_min in total (x2 for the other roundings)
+            dmin = min(math.sqrt(sum((ring[i][j] - ring[i - 1][j]) ** 2 for j in range(3))) for i in range(len(ring)))
+            slack_impl = len(ring) * 8 * 2.3e-16 / max(dmin, 1e-9) + 5e-14 * (len(ring) + 10)
         for s in sf:
             for p, q in zip(s, s[1:]):
                 if p[0] == q[0]:
@@ -649,14 +712,15 @@ def run(ctx):
             true_cw_forced = sa < 0
             area_impl = o["area"]
             if g["true_cw"] is not None and cw != g["true_cw"]:
-                ctx.add_failure("C16.clockwise.corner_test", "%s: _corner_is_clockwise says %s for a ring that runs %s" %
+                ctx.add_failure("C16.clockwise." + (kindkey if kindkey in ("high_resolution", "long_side") else "corner_test"),
+                                "%s: _corner_is_clockwise says %s for a ring that runs %s" %
                                 (what, cw, "clockwise" if g["true_cw"] else "counter-clockwise"), rep)
                 continue
             if not true_cw_forced or not (area_impl < 2 * math.pi):
                 ctx.add_failure("C16.clockwise." + kindkey, "%s: the ring of get_bbox_lonlats(force_clockwise=True) runs counter-clockwise "
                                 "(signed area %+.6g sr, SphPolygon.area %.6g)" % (what, sa, area_impl), rep)
                 continue
-            if abs(area_impl - a_ref) > tol + 1e-7 * max(1.0, a_ref) or abs(-sa - a_ref) > tol:
+            if abs(area_impl - a_ref) > tol + slack_impl or abs(-sa - a_ref) > tol:
                 ctx.add_failure("C16.footprint.area", "%s: ring area %.9g (SphPolygon) / %.9g (oracle) vs footprint %.9g, allowance %.3g"
                                 % (what, area_impl, -sa, a_ref, tol), rep)
                 continue
